@@ -32,7 +32,7 @@ import (
 
 type vf19Side struct {
 	chunks  [][]byte
-	term    int // -1 none, vf19EOF, vf19RErr
+	term    int  // -1 none, vf19EOF, vf19RErr
 	withDat bool // the terminal event is reported by the Read that returns the last bytes of the last chunk
 	rerr    error
 	wfailAt int // -1 none
